@@ -79,7 +79,18 @@ theorem tree_no_fredkin (hF : Gen.SchedRule.inSet "FREDKIN" = false) {ns : List 
     ∀ a ∈ ns, a.name = "FREDKIN" → a.sc = false := by
   intro a ha hn
   have := h a ha
-  unfold TreeIns at this
-  rw [this, hn, hF]
+  unfold TreeIns Gen.SchedRule.flagged at this
+  rw [this, hn, hF, Bool.false_and]
+
+/-- on a tree whose rule has the guard on gates given by many targets (`lenBound = some k`), an instruction with more
+than `k` targets is never flagged — e.g. `TOFFOLI([c1, c2, t])` as the library's class builds it (all three qubits as
+targets, no controls): such a position is covered by the opaque clause of `GateOK` (any operator on its used qubits) -/
+theorem tree_long_targets_unflagged {a : Ins} (h : TreeIns a) {k : Nat} (hk : Gen.SchedRule.lenBound = some k)
+    (hl : k < a.targets.length) : a.sc = false := by
+  unfold TreeIns Gen.SchedRule.flagged at h
+  rw [h, hk]
+  simp only [Bool.and_eq_false_imp, decide_eq_false_iff_not]
+  intro _
+  omega
 
 end QipVerif
